@@ -474,7 +474,7 @@ impl Client {
                         local_nonce: state.local_nonce,
                         remote_nonce: frame.nonce,
                         half_connection,
-                        timeout_time_ms: now_ms + self.config.endpoint_config.active_timeout_ms,
+                        timeout_time_ms: now_ms.saturating_add(self.config.endpoint_config.active_timeout_ms),
                         disconnect_signal: None,
                     });
                 }
@@ -601,7 +601,7 @@ impl Client {
         match self.state {
             State::Active(ref mut state) => {
                 state.half_connection.handle_data_frame(frame);
-                state.timeout_time_ms = now_ms + self.config.endpoint_config.active_timeout_ms;
+                state.timeout_time_ms = now_ms.saturating_add(self.config.endpoint_config.active_timeout_ms);
             }
             _ => (),
         }
@@ -611,7 +611,7 @@ impl Client {
         match self.state {
             State::Active(ref mut state) => {
                 state.half_connection.handle_sync_frame(frame);
-                state.timeout_time_ms = now_ms + self.config.endpoint_config.active_timeout_ms;
+                state.timeout_time_ms = now_ms.saturating_add(self.config.endpoint_config.active_timeout_ms);
             }
             _ => (),
         }
@@ -621,7 +621,7 @@ impl Client {
         match self.state {
             State::Active(ref mut state) => {
                 state.half_connection.handle_ack_frame(frame);
-                state.timeout_time_ms = now_ms + self.config.endpoint_config.active_timeout_ms;
+                state.timeout_time_ms = now_ms.saturating_add(self.config.endpoint_config.active_timeout_ms);
             }
             _ => (),
         }
